@@ -107,7 +107,7 @@ def _positions(rng, tempo, k, max_beat):
 def _chart(rng, tempo, t0, ty, keys, heavy):
     max_beat = rng.choice([4, 8, 12, 20])
     start_gap = rng.choice([0, 0, 0, 4, 8]) if len(tempo) == 1 else 0
-    n = rng.choice([0, 1, 3, 5, 8, 12])
+    n = rng.choice([0, 1, 3, 5, 8, 10])
     used = set()
     c = {k: [] for k in G.SIMPLE + G.HOLDS}
     pos = _positions(rng, tempo, n, max_beat)
@@ -187,7 +187,7 @@ def _mapset(rng, types, conv=None):
 
 
 def generate(rng, tier):
-    n = 230 if tier == "quick" else 5000
+    n = 200 if tier == "quick" else 5000
     types = G.supported_types()
     cases = []
     for i in range(n):
